@@ -128,3 +128,15 @@ Print Assumptions C02_sound.
 Print Assumptions C02_responder_answered.
 Print Assumptions C02_exact.
 Print Assumptions C02_k_closest_spec.
+
+(* The model runner's treatment of replies processed at overlapping times (harness line `tdonem`:
+   several DoQuery calls return together, their locked sections interleave with each other and
+   with the run loop): every state the runner ever holds for such a line is the state after some
+   label list of the same LTS, so C02_sound / C02_exact (and C03, C04) apply to it. *)
+From Dht Require Import RunTraversal TraversalConc.
+Theorem C02_overlapping_replies_runner_sound (c : tcfg) (pf : bool) s rs ids s1 n s' :
+  rt_conc_begin c pf s rs = Some (ids, s1) ->
+  In s' (map (rt_quiesce c pf) (conc_explore c pf n ids [s1])) ->
+  exists ls, s' = rt_exec c pf s ls.
+Proof. exact (rt_conc_reach c pf s rs ids s1 n s'). Qed.
+Print Assumptions C02_overlapping_replies_runner_sound.
